@@ -2132,6 +2132,20 @@ def gen_header_text(rng, valid=True, distinct=True):
                 b = min(U64, size + rng.randint(1, 3))
         return [rng.choice(ODD_NAMES), size, rng.choice("+-"), a, b]
     r, q = side(), side()
+    if rng.random() < 0.15:
+        # a self-alignment-like header: the query side repeats the reference side, entirely or but for one field
+        q = list(r)
+        k = rng.choice([None, 0, 1, 2, 3, 4, 4, 4])
+        if k == 0:
+            q[0] = rng.choice(ODD_NAMES)
+        elif k == 1:
+            q[1] = min(U64, q[1] + rng.randint(1, 9))
+        elif k == 2:
+            q[2] = "-" if q[2] == "+" else "+"
+        elif k == 3:
+            q[3] = rng.randint(0, max(0, q[4]))
+        elif k == 4:
+            q[4] = rng.randint(min(q[3], q[1]), max(q[3], q[1]))
     fields = ["chain", rng.randint(0, 10 ** 9)] + r + q + [rng.randint(0, 10 ** 6)]
     out = []
     for f in fields:
@@ -2193,6 +2207,18 @@ class C13(Prop):
                     for c in chains:
                         for side in (c.ref, c.qry):
                             side.name = ren.setdefault(side.name, side.name + rng.choice(["\u00e9", "\u4e2d", "\U0001F9EC", "\u00e9\u4e2d"]))
+                if rng.random() < 0.2:
+                    # a self chain: query contig, size, strand and start repeat the reference's; only the ends differ
+                    # (by the gaps)
+                    c = rng.choice(chains)
+                    c.qry.name, c.qry.strand, c.qry.start = c.ref.name, c.ref.strand, c.ref.start
+                    c.qry.end = c.qry.start + c.qry_extent()
+                    ch.fix_sizes(rng, chains)
+                    m_ = max([x.ref.size for x in chains if x.ref.name == c.ref.name] + [x.qry.size for x in chains if x.qry.name == c.ref.name])
+                    for x in chains:
+                        for sd in (x.ref, x.qry):
+                            if sd.name == c.ref.name:
+                                sd.size = m_
                 ivs = [list(ch.gen_interval(rng, chains)) for _ in range(8)]
                 yield {"kind": "file", "chains": [ch.chain_to_dict(c) for c in chains], "style": ch.style_to_dict(ch.gen_style(rng)), "ivs": ivs}
 
